@@ -160,7 +160,9 @@ KW = lambda n, v: Rec("KeywordArgument", _module=EXPR, name=Const(n), value=v)  
 T_ARGS = Union(ConcreteList(), ConcreteList(POS(LIT())), ConcreteList(POS(VAR())), ConcreteList(KW("plural", LIT())),
                ConcreteList(KW("plural", VAR())), ConcreteList(POS(LIT()), KW("plural", LIT())), ConcreteList(KW("count", VAR())),
                ConcreteList(POS(VAR()), KW("count", VAR()), KW("plural", LIT())), ConcreteList(KW("you", VAR()), KW("plural", LIT()), KW("count", VAR())),
-               ConcreteList(POS(LIT()), KW("count", VAR())))
+               ConcreteList(POS(LIT()), KW("count", VAR())),
+               # a positional argument written after keyword arguments is still the first positional argument the filter receives
+               ConcreteList(KW("plural", LIT()), KW("count", VAR()), POS(LIT())), ConcreteList(KW("you", VAR()), POS(LIT())))
 FILT = lambda args: Rec("Filter", _module=EXPR, args=args)   # noqa: E731
 
 
@@ -178,17 +180,41 @@ def _has_kw(ex, args, name, literal):
     return False
 
 
-@spec("first_pos", None)
-def _first_pos(ex, args, literal):
+def _positionals(args):
+    """The positional arguments in the order the filter receives them - wherever they are written among the keyword arguments
+    (Filter.evaluate_args sorts the arguments into a positional list and a keyword mapping)."""
     from pyvc.values import HList, HObj
     items = args.items if isinstance(args, HList) else list(args)
-    if not items:
+    return [a for a in items if isinstance(a, HObj) and a.cls.name == "PositionalArgument"]
+
+
+@spec("first_pos", None)
+def _first_pos(ex, args, literal):
+    """There is a first positional argument (and it is / is not a string literal)."""
+    from pyvc.values import HObj
+    ps = _positionals(args)
+    if not ps:
         return False
-    a = items[0]
-    if not (isinstance(a, HObj) and a.cls.name == "PositionalArgument"):
-        return False
-    v = a.fields.get("value")
+    v = ps[0].fields.get("value")
     return literal is None or literal == (isinstance(v, HObj) and v.cls.name == "StringLiteral")
+
+
+@spec("n_pos", None)
+def _n_pos(ex, args):
+    return len(_positionals(args))
+
+
+@spec("pos_is_lit", None)
+def _pos_is_lit(ex, args, k):
+    from pyvc.values import HObj
+    ps = _positionals(args)
+    return k < len(ps) and isinstance(ps[k].fields.get("value"), HObj) and ps[k].fields["value"].cls.name == "StringLiteral"
+
+
+@spec("pos_lit", None)
+def _pos_lit(ex, args, k):
+    """The text of the k-th positional argument (a string literal)."""
+    return _positionals(args)[k].fields["value"].fields["value"]
 
 
 contract(
@@ -202,9 +228,9 @@ contract(
         "implies(result is not None, result.lineno == lineno)",
         "implies(result is not None, result.funcname == static_family_name(has_kw(_filter.args, 'plural', True), first_pos(_filter.args, True)))",
         # the family reported: plural forms for a literal plural, p-variants for a literal context
-        "implies(result is not None and has_kw(_filter.args, 'plural', True) and first_pos(_filter.args, True), result.funcname == 'npgettext' and result.message == ((_filter.args[0].value.value, 'c'), left.value, plural_of(_filter.args)))",
+        "implies(result is not None and has_kw(_filter.args, 'plural', True) and first_pos(_filter.args, True), result.funcname == 'npgettext' and result.message == ((pos_lit(_filter.args, 0), 'c'), left.value, plural_of(_filter.args)))",
         "implies(result is not None and has_kw(_filter.args, 'plural', True) and not first_pos(_filter.args, True), result.funcname == 'ngettext' and result.message == (left.value, plural_of(_filter.args)))",
-        "implies(result is not None and not has_kw(_filter.args, 'plural', None) and first_pos(_filter.args, True), result.funcname == 'pgettext' and result.message == ((_filter.args[0].value.value, 'c'), left.value))",
+        "implies(result is not None and not has_kw(_filter.args, 'plural', None) and first_pos(_filter.args, True), result.funcname == 'pgettext' and result.message == ((pos_lit(_filter.args, 0), 'c'), left.value))",
         "implies(result is not None and not has_kw(_filter.args, 'plural', None) and not first_pos(_filter.args, True), result.funcname == 'gettext' and result.message == (left.value,))",
     ],
     raises={},
@@ -226,14 +252,15 @@ def _plural_of(ex, args):
 for _cls, _fam, _args, _posts in (
     ("GetText", "gettext", Union(ConcreteList(), ConcreteList(KW("you", VAR()))),
      ["implies(isinstance(left, StringLiteral), result is not None and result.funcname == 'gettext' and result.message == (left.value,) and result.lineno == lineno)"]),
-    ("NGetText", "ngettext", Union(ConcreteList(), ConcreteList(POS(LIT()), POS(VAR())), ConcreteList(POS(VAR()), POS(VAR())), ConcreteList(POS(LIT()))),
-     ["implies(isinstance(left, StringLiteral) and first_pos(_filter.args, True), result is not None and result.funcname == 'ngettext' and result.message == (left.value, _filter.args[0].value.value) and result.lineno == lineno)"]),
-    ("PGetText", "pgettext", Union(ConcreteList(), ConcreteList(POS(LIT())), ConcreteList(POS(VAR()))),
-     ["implies(isinstance(left, StringLiteral) and first_pos(_filter.args, True), result is not None and result.funcname == 'pgettext' and result.message == ((_filter.args[0].value.value, 'c'), left.value) and result.lineno == lineno)"]),
+    ("NGetText", "ngettext", Union(ConcreteList(), ConcreteList(POS(LIT()), POS(VAR())), ConcreteList(POS(VAR()), POS(VAR())), ConcreteList(POS(LIT())),
+                                 ConcreteList(KW("you", LIT()), POS(LIT()), POS(VAR()))),
+     ["implies(isinstance(left, StringLiteral) and first_pos(_filter.args, True), result is not None and result.funcname == 'ngettext' and result.message == (left.value, pos_lit(_filter.args, 0)) and result.lineno == lineno)"]),
+    ("PGetText", "pgettext", Union(ConcreteList(), ConcreteList(POS(LIT())), ConcreteList(POS(VAR())), ConcreteList(KW("you", LIT()), POS(LIT()))),
+     ["implies(isinstance(left, StringLiteral) and first_pos(_filter.args, True), result is not None and result.funcname == 'pgettext' and result.message == ((pos_lit(_filter.args, 0), 'c'), left.value) and result.lineno == lineno)"]),
     ("NPGetText", "npgettext", Union(ConcreteList(), ConcreteList(POS(LIT())), ConcreteList(POS(LIT()), POS(LIT()), POS(VAR())), ConcreteList(POS(VAR()), POS(LIT()), POS(VAR())),
-                                      ConcreteList(POS(LIT()), POS(VAR()), POS(VAR()))),
-     ["implies(isinstance(left, StringLiteral) and len(_filter.args) >= 2 and first_pos(_filter.args, True) and isinstance(_filter.args[1].value, StringLiteral), result is not None and result.funcname == 'npgettext' "
-      "and result.message == ((_filter.args[0].value.value, 'c'), left.value, _filter.args[1].value.value) and result.lineno == lineno)"]),
+                                      ConcreteList(POS(LIT()), POS(VAR()), POS(VAR())), ConcreteList(KW("you", LIT()), POS(LIT()), POS(LIT()), POS(VAR()))),
+     ["implies(isinstance(left, StringLiteral) and n_pos(_filter.args) >= 2 and first_pos(_filter.args, True) and pos_is_lit(_filter.args, 1), result is not None and result.funcname == 'npgettext' "
+      "and result.message == ((pos_lit(_filter.args, 0), 'c'), left.value, pos_lit(_filter.args, 1)) and result.lineno == lineno)"]),
 ):
     contract(
         f"liquid2.builtin.filters.translate:{_cls}.message",
